@@ -49,15 +49,15 @@ def split_line(line):
 PROFILES = {
     "mixed-styles": dict(p_arg=0.35, flavours=["sync", "sync", "async", "async", "mixed", "guards"],
                          styles_v=["next", "anext", "call", "iter", "for", "mixed", "mixed"],
-                         styles_a=["next", "anext", "call", "mixed", "mixed"], quick=3000, thorough=90000, corpus=True),
+                         styles_a=["next", "anext", "call", "mixed", "mixed"], quick=3000, thorough=180000, corpus=True),
     "sync-access-of-async-body": dict(p_arg=0.3, flavours=["async", "mixed"], styles_v=["next", "iter", "for", "call-wait"],
-                                      styles_a=["next", "call-wait"], quick=1500, thorough=60000),
+                                      styles_a=["next", "call-wait"], quick=1500, thorough=120000),
     "async-access": dict(p_arg=0.4, flavours=["async", "mixed", "sync"], styles_v=["anext", "call", "mixed"],
-                         styles_a=["anext", "call", "mixed"], quick=1500, thorough=60000),
+                         styles_a=["anext", "call", "mixed"], quick=1500, thorough=120000),
     "arguments": dict(p_arg=1.0, flavours=["args", "args", "mixed"], styles_v=["mixed"], styles_a=["next", "anext", "call", "mixed", "mixed"],
-                      quick=1500, thorough=50000),
+                      quick=1500, thorough=100000),
     "destroy-parked": dict(p_arg=0.2, flavours=["guards"], styles_v=["next", "anext", "call", "iter", "mixed"],
-                           styles_a=["next", "anext", "call", "mixed"], quick=1500, thorough=40000, p_destroy=0.85),
+                           styles_a=["next", "anext", "call", "mixed"], quick=1500, thorough=80000, p_destroy=0.85),
 }
 
 
@@ -146,6 +146,8 @@ class GenSuite(Suite):
         have_it = False
         nyield = sum(1 for a in acts if a[0] == "y")
         budget = nyield + rng.choice([0, 1, 2, 2, 3, 4]) if rng.random() < 0.9 else 1000   # accesses before the case stops
+        if self.prof.get("p_destroy") and rng.random() < 0.7:
+            budget = rng.randint(1, max(1, nyield))          # stop while the body is still parked at a co_yield
         for _ in range(nops):
             if sum(1 for l in lines[2:] if l.split()[0] in ACCESS) >= budget:
                 break
